@@ -30,7 +30,9 @@ def crc32c (data : Bytes) : UInt32 := crc32cAppend 0 data
 
 /-! ### big-endian fields -/
 
-def le32 (x : UInt32) : Bytes := [x.toUInt8, (x >>> 8).toUInt8, (x >>> 16).toUInt8, (x >>> 24).toUInt8]
+def le32 (x : UInt32) : Bytes :=
+  [UInt8.ofNat (x.toNat % 256), UInt8.ofNat (x.toNat / 256 % 256), UInt8.ofNat (x.toNat / 65536 % 256),
+   UInt8.ofNat (x.toNat / 16777216)]
 
 /-! ### chunks -/
 
